@@ -1,13 +1,21 @@
 """Contracts for pydbml/_classes/table.py (C09 one level down, C05 back-pointers, C17 refusals)."""
 from pyvc.verify import contract, loc, loc_list, loc_each
-from pyvc.speclib import fresh, old
+from pyvc.speclib import fresh, old, abstract
 from pydbml.classes import Column, Index, Table, Expression
 from contracts.database import appended, removed_at, same_list
 
 
+def cols_inv(t):
+    return all(c.table is t for c in t.columns)
+
+
+def idx_inv(t):
+    return all(i.table is t for i in t.indexes)
+
+
 def tbl_inv(t):
     """Every listed column and index points back to the table."""
-    return all(c.table is t for c in t.columns) and all(i.table is t for i in t.indexes)
+    return cols_inv(t) and idx_inv(t)
 
 
 def not_listed(xs, x):
@@ -42,7 +50,8 @@ class add_column:
     params = {'self': 'Table', 'c': 'Union[Column,Index,str,int,None]'}
 
     def requires_inv(self, c):
-        return tbl_inv(self)
+        # the column half of the table invariant (the constructor calls this before `indexes` exists)
+        return cols_inv(self)
 
     def requires_not_listed_twice(self, c):
         # adding the very same object twice is the listed known finding C09.B.table-level:double-add
@@ -61,7 +70,11 @@ class add_column:
         return appended(self.columns, old(self.columns), c)
 
     def ensures_inv(self, c, result):
-        return tbl_inv(self)
+        return cols_inv(self)
+
+    def ensures_indexes_untouched(self, c, result):
+        # with the frame (only c.table and the column list change) the index half is preserved
+        return not old(idx_inv(self)) or idx_inv(self)
 
 
 @contract('pydbml._classes.table:Table.delete_column')
@@ -107,7 +120,7 @@ class add_index:
     params = {'self': 'Table', 'i': 'Union[Index,Column,str,int,None]'}
 
     def requires_inv(self, i):
-        return tbl_inv(self)
+        return idx_inv(self)
 
     def requires_not_listed_twice(self, i):
         return not isinstance(i, Index) or not_listed(self.indexes, i)
@@ -132,7 +145,10 @@ class add_index:
         return all(not isinstance(s, Column) or s.table is self for s in i.subjects)
 
     def ensures_inv(self, i, result):
-        return tbl_inv(self)
+        return idx_inv(self)
+
+    def ensures_columns_untouched(self, i, result):
+        return not old(cols_inv(self)) or cols_inv(self)
 
 
 @contract('pydbml._classes.table:Table.delete_index')
@@ -169,8 +185,20 @@ class delete_index:
         return tbl_inv(self)
 
 
+@abstract('Column')
+def column_at(table, k):
+    """the column Table.__getitem__ answers with (a name for its result; what it is, is the ensures below)"""
+    return table[k]
+
+
 @contract('pydbml._classes.table:Table.__getitem__')
 class tbl_getitem:
+    returns_defines = True
+    assume_at_call = ('ensures_int', 'ensures_str')
+
+    def returns(self, k):
+        return column_at(self, k)
+
     # C01: ReferenceBlueprint.build and IndexBlueprint.build resolve column names through this lookup
     properties = ('C09', 'C05', 'C06', 'C01')
     params = {'self': 'Table', 'k': 'Union[int,str,None]'}
@@ -225,26 +253,59 @@ class has_composite_pk:
 
 @contract('pydbml._classes.table:Table.__init__')
 class tbl_init:
-    """The call shape used by the parser and by Reference.join_table's callers without columns:
-    columns/indexes None.  (Construction with column lists is covered by the bounded twin.)"""
+    """Every call shape: without columns/indexes (the parser's) and with lists of distinct, free-standing
+    columns and indexes (Reference.join_table, client code).  The two construction loops are verified by
+    invariant: after i rounds the first i given objects are listed, in order, and point back to the table."""
     properties = ('C09', 'C05', 'C01', 'C11')
     params = {'self': 'Table', 'name': 'Optional[str]', 'schema': 'Optional[str]', 'alias': 'Optional[str]',
-              'columns': 'None', 'indexes': 'None', 'note': 'Union[None,Note,str]',
+              'columns': 'Optional[List[Column]]', 'indexes': 'Optional[List[Index]]', 'note': 'Union[None,Note,str]',
               'header_color': 'Optional[str]', 'comment': 'Optional[str]', 'abstract': 'bool',
               'properties': 'Optional[Dict[str]]'}
+    allowed = ('ColumnNotFoundError',)      # an index over a column of another table (add_index refuses it)
+
+    def requires_distinct_columns(self, name, schema, alias, columns, indexes, note, header_color, comment, abstract, properties):
+        return columns is None or all(all(a == b or x is not y for b, y in enumerate(columns)) for a, x in enumerate(columns))
+
+    def requires_distinct_indexes(self, name, schema, alias, columns, indexes, note, header_color, comment, abstract, properties):
+        return indexes is None or all(all(a == b or x is not y for b, y in enumerate(indexes)) for a, x in enumerate(indexes))
 
     def modifies(self, name, schema, alias, columns, indexes, note, header_color, comment, abstract, properties):
         return [loc(self, 'database'), loc(self, 'name'), loc(self, 'schema'), loc(self, 'columns'),
                 loc(self, 'indexes'), loc(self, 'alias'), loc(self, '_note'), loc(self, 'header_color'),
-                loc(self, 'comment'), loc(self, 'abstract'), loc(self, 'properties')]
+                loc(self, 'comment'), loc(self, 'abstract'), loc(self, 'properties')] + \
+            ([loc_each(columns, 'table')] if columns is not None else []) + \
+            ([loc_each(indexes, 'table')] if indexes is not None else [])
+
+    def loop0_modifies(self, name, schema, alias, columns, indexes, note, header_color, comment, abstract, properties):
+        return [loc_list(self.columns), loc_each(columns, 'table')]
+
+    def loop0_invariant(self, name, schema, alias, columns, indexes, note, header_color, comment, abstract, properties, i):
+        return (fresh(self.columns) and len(self.columns) == i
+                and all(self.columns[j] is columns[j] and columns[j].table is self for j in range(i))
+                and self.database is None and self.name is name and self.schema is schema)
+
+    def loop1_modifies(self, name, schema, alias, columns, indexes, note, header_color, comment, abstract, properties):
+        return [loc_list(self.indexes), loc_each(indexes, 'table')]
+
+    def loop1_invariant(self, name, schema, alias, columns, indexes, note, header_color, comment, abstract, properties, i):
+        return (fresh(self.indexes) and fresh(self.columns) and self.indexes is not self.columns and len(self.indexes) == i
+                and all(self.indexes[j] is indexes[j] and indexes[j].table is self for j in range(i))
+                and self.database is None and self.name is name and self.schema is schema
+                and len(self.columns) == (len(columns) if columns is not None else 0)
+                and all(self.columns[j] is columns[j] and columns[j].table is self for j in range(len(self.columns))))
 
     def ensures_fields(self, name, schema, alias, columns, indexes, note, header_color, comment, abstract, properties, result):
         return (self.name is name and self.schema is schema and self.header_color is header_color
                 and self.comment is comment and self.abstract is abstract and self.database is None
                 and self.alias == (alias if alias else None))
 
-    def ensures_empty_lists(self, name, schema, alias, columns, indexes, note, header_color, comment, abstract, properties, result):
-        return len(self.columns) == 0 and len(self.indexes) == 0 and fresh(self.columns) and fresh(self.indexes)
+    def ensures_columns(self, name, schema, alias, columns, indexes, note, header_color, comment, abstract, properties, result):
+        return (fresh(self.columns) and len(self.columns) == (len(columns) if columns is not None else 0)
+                and all(self.columns[j] is columns[j] for j in range(len(self.columns))))
+
+    def ensures_indexes(self, name, schema, alias, columns, indexes, note, header_color, comment, abstract, properties, result):
+        return (fresh(self.indexes) and len(self.indexes) == (len(indexes) if indexes is not None else 0)
+                and all(self.indexes[j] is indexes[j] for j in range(len(self.indexes))))
 
     def ensures_note(self, name, schema, alias, columns, indexes, note, header_color, comment, abstract, properties, result):
         return fresh(self.note) and self.note.parent is self and \
